@@ -197,6 +197,26 @@ func (conR *ConsensusReactor) Receive(chID byte, src *p2p.Peer, msgBytes []byte)
 	}
 	//log.Debugw("Receive", "src", src, "chId", chID, "msg", msg)
 
+	// The bit arrays of these messages are kept in the peer state and read by the gossip
+	// routines, which nothing recovers: refuse one whose words do not match its size.
+	switch m := msg.(type) {
+	case *CommitStepMessage:
+		if !wellFormedBitArray(m.BlockParts) || (m.BlockParts != nil && m.BlockParts.Bits != m.BlockPartsHeader.Total) {
+			log.Warnw("Malformed CommitStepMessage", "src", src)
+			return
+		}
+	case *ProposalPOLMessage:
+		if !wellFormedBitArray(m.ProposalPOL) {
+			log.Warnw("Malformed ProposalPOLMessage", "src", src)
+			return
+		}
+	case *VoteSetBitsMessage:
+		if !wellFormedBitArray(m.Votes) {
+			log.Warnw("Malformed VoteSetBitsMessage", "src", src)
+			return
+		}
+	}
+
 	// Get peer states
 	ps := src.Data.Get(types.PeerStateKey).(*PeerState)
 
@@ -322,6 +342,12 @@ func (conR *ConsensusReactor) Receive(chID byte, src *p2p.Peer, msgBytes []byte)
 	if err != nil {
 		log.Warn("Error in Receive()", zap.String("error", err.Error()))
 	}
+}
+
+// wellFormedBitArray: the reflective decoder fills Bits and Elems of a received bit array
+// independently of each other; nil stands for the empty one.
+func wellFormedBitArray(bA *gcmn.BitArray) bool {
+	return bA == nil || (bA.Bits > 0 && len(bA.Elems) == (bA.Bits+63)/64)
 }
 
 // implements events.Eventable
